@@ -153,11 +153,26 @@ def r3(ctx, v, prog, mod):
         if cand in mod.functions: fn = mod.functions[cand]
     n = 0
     if v.backend == 'cxx':
-        # LexerInput result < 0 -> fatal
-        for f in mod.functions.values():
-            for c in f.ins:
-                if c.op in ('call', 'invoke') and not isinstance(c.callee, str): continue
-        return 0
+        # yyFlexLexer::yyread: the result of the (virtual) LexerInput call is compared with 0 and the negative edge is fatal
+        fx = [f for n, f in mod.functions.items() if re.search(r'FlexLexer6yyread', n)]
+        if not fx: return 0
+        fn = fx[0]; cfg = prog.cfg(fn)
+        calls = [c for c in fn.ins if c.op in ('call', 'invoke') and not isinstance(c.callee, str)]
+        key = 'C14.R3:cpp-flex.skl:yyFlexLexer::yyread:LexerInput'
+        if not calls:
+            rep.fail('C14.R3', key + ':missing', fwhere(fn), 'yyFlexLexer::yyread no longer calls the virtual LexerInput [variant %s]' % v.name, variant=v.describe()); return 1
+        c = calls[0]; ok = False
+        for x in cfg.reach(c):
+            if x.op == 'icmp' and x.pred in ('slt', 'sle', 'sgt', 'sge') and (('int', 0) in x.ops):
+                br = x.blk.ins[-1]
+                if br.op != 'br' or br.ops[0] != ('reg', x.res): continue
+                # which side is "negative"?
+                neg_true = (x.pred in ('slt', 'sle') and x.ops[1] == ('int', 0)) or (x.pred in ('sgt', 'sge') and x.ops[0] == ('int', 0))
+                t = br.targets[0] if neg_true else br.targets[1]
+                if not any(y.op == 'ret' for y in cfg.reach_from_block(fn.bmap[t])): ok = True
+        if ok: rep.ok('C14.R3', '%s yyFlexLexer::yyread: LexerInput() < 0 edge is fatal' % v.name)
+        else: rep.fail('C14.R3', key + ':negative-not-fatal', where(c), 'a negative result of LexerInput() does not reach the fatal hook in yyFlexLexer::yyread [variant %s]' % v.name, variant=v.describe())
+        return 1
     if fn is None: return 0
     cfg = prog.cfg(fn)
     nr = prog.noreturn()
